@@ -75,7 +75,7 @@ def numOK : Default → Bool
 theorem isNegRepr_dropFirst {r : String} (h : okNumRepr r = true) : isNegRepr (dropFirst r) = false := by
   unfold okNumRepr at h
   simp only [Bool.and_eq_true, Bool.not_eq_true'] at h
-  exact h.1.1.2
+  exact h.1.1.1.1.2
 
 theorem gv_const (d : Default) (h : numOK d = true) : getValue (Expr.reparse (.const (.val d))) = .val d := by
   cases d with
